@@ -3,7 +3,7 @@
    sumbool, sumor -> OCaml's own; ascii -> char; string -> char list); N and positive stay
    the extracted inductive types.  No Extract Constant, no directive of our own. *)
 From Coq Require Import Extraction ExtrOcamlBasic ExtrOcamlString.
-From Breadlog Require Import Model.Peg Model.Text Model.Regex Model.Glue Model.Tables Model.Utf8 Model.Driver Model.Finder.
+From Breadlog Require Import Model.Peg Model.Text Model.Regex Model.Glue Model.Tables Model.Utf8 Model.Driver Model.Finder Model.Lock.
 From Breadlog Require Import Gen.Consts.
 Extraction Language OCaml.
 Extraction "model.ml"
@@ -11,4 +11,5 @@ Extraction "model.ml"
   Glue.extract_reference Glue.directive_check Glue.usable Glue.insertable
   Text.line_col Text.dec Text.parse_u32 Regex.captures
   Driver.run_edit Driver.run_check Driver.apply_effs Driver.crash_world Consts.c_START_REFERENCE_ID
-  Utf8.utf8_decode Utf8.utf8_encode Finder.find_files Finder.effective_source_dir Finder.lock_path Finder.resolve.
+  Utf8.utf8_decode Utf8.utf8_encode Finder.find_files Finder.effective_source_dir Finder.lock_path Finder.resolve
+  Lock.lock_read Lock.lock_text.
